@@ -147,6 +147,7 @@ type c05World struct {
 	future   []int64
 	content  map[string]*State
 	maxH     int64
+	passMax  int64 // greatest height a pruning pass was run (or may have been started) for
 	viol     *simrt.Violation
 	sched    *simrt.Sched
 	chainGID uint64
@@ -354,6 +355,10 @@ func (w *c05World) commit(mode int64, h int64, batch []simrt.Op, how string) {
 	if h > w.maxH {
 		w.maxH = h
 	}
+	// the store's own trigger: a pass for height h may have been started by this commit
+	if w.ph > 0 && h%w.ph == 0 && h/w.ph > 1 && h > w.passMax {
+		w.passMax = h
+	}
 	ctx.Probe("height_committed")
 	if len(kvs) == 0 {
 		ctx.Probe("height_without_state_change")
@@ -432,6 +437,9 @@ func (w *c05World) do(op *simrt.Op) {
 			return
 		}
 		cur := w.tip().height
+		if cur > w.passMax {
+			w.passMax = cur
+		}
 		w.nodesBefore = w.dbSize()
 		ctx.Fault("explicit_prune")
 		w.parks = ctx.Sc.Knob("chainparks", 0) == 1
@@ -555,9 +563,18 @@ func (w *c05World) checkRetained(tag string) {
 	}
 	ctx := w.ctx
 	tipH := w.tip().height
+	// Protected: the states of the current chain within the prune interval below
+	// the tip, except those a pruning pass that really ran (explicit, or started by
+	// the store at a multiple of the interval) at a greater height may legitimately
+	// have thinned out before the chain was rolled back. The highest height ever
+	// committed does not matter by itself.
+	lower := tipH - w.ph
+	if w.passMax-w.ph > lower {
+		lower = w.passMax - w.ph
+	}
 	for i := len(w.chain) - 1; i >= 1; i-- {
 		p := w.chain[i]
-		if p.height < w.maxH-w.ph && i != len(w.chain)-1 {
+		if p.height < lower && i != len(w.chain)-1 {
 			break
 		}
 		st := w.content[string(p.root)]
@@ -566,7 +583,7 @@ func (w *c05World) checkRetained(tag string) {
 			where = "retained-below-tip"
 		}
 		if v := CheckFull(ctx, w.n, p.root, st, tag+"/"+where); v != nil {
-			v.Detail += fmt.Sprintf(" [state of height %d; tip height %d; highest height ever committed %d; prune interval %d]", p.height, tipH, w.maxH, w.ph)
+			v.Detail += fmt.Sprintf(" [state of height %d; tip height %d; highest height ever committed %d; greatest pruning pass height %d; prune interval %d]", p.height, tipH, w.maxH, w.passMax, w.ph)
 			w.fail(v)
 			return
 		}
